@@ -353,7 +353,7 @@ def fam_edits(R, s, tier):
 def fam_shift_v1(R, s, tier):
     if s.version != 1 or not s.structured:
         return
-    ages = [31, 40000]
+    ages = [31, 40000, 10 ** 9]      # (a huge max_age_days must not weaken the "timestamp from the future" check)
     nows = [s.t0, s.t0 + 86400]
     tail = b"|" + s.sig
 
